@@ -186,7 +186,15 @@ func Case(class string, nontrivial bool, key string, sample any) {
 		} else {
 			saturated = true
 		}
-		if sample != nil && sampleSeen[class] < 2 && len(samples) < maxSamples {
+		if sampleSeen[class] < 2 && len(samples) < maxSamples {
+			if sample == nil {
+				// no written-out case supplied: the canonical key identifies it
+				k := key
+				if len(k) > 600 {
+					k = k[:600] + "..."
+				}
+				sample = map[string]any{"key": k}
+			}
 			if b, err := json.Marshal(map[string]any{"class": class, "case": sample}); err == nil {
 				if len(b) > 4096 {
 					b, _ = json.Marshal(map[string]any{"class": class, "case_truncated": string(b[:4000])})
